@@ -21,6 +21,16 @@ CHECKS = {
             "compared fold by fold with an integer-arithmetic reference tiling plus statement-level "
             "invariants; exhaustive within the bound, silent about larger sizes",
             "4/C01", TRUST + "In-sample horizons are outside the quantifier."),
+    "C02": ("exploration", "E1", E1 + "; plus every sequence of <=3 conversions on one object (cache histories)",
+            "every step set below the bound x container x relative/absolute x cutoff is converted "
+            "through every public conversion and compared with a pure-Python set reference; every "
+            "listed malformed horizon must be rejected while its valid twin is accepted",
+            "4/C02", TRUST + "Float/object pd.Index is not used as a wrongly-typed representative (K3)."),
+    "C11": ("exploration", "E1", E1,
+            "NaiveForecaster / PolynomialTrendForecaster on every (n, strategy, sp, window, horizon, "
+            "NaN pattern) below the bound against textbook references; statsmodels adapters against "
+            "direct statsmodels calls with the same options",
+            "4/C11", TRUST + "Small tagged value alphabets; Theta judged against the composition of its documented parts."),
 }
 
 PENDING_REASON = "check not built yet in this round; planned in DESIGN.md section 4 (engine listed there)"
